@@ -5,7 +5,7 @@
    setter preserves the whole invariant, and everything about schema content
    (usedUserTypes/usedUserEnums), is checked on the implementation's JSON for every accepted
    case and through the skeleton correspondence. *)
-From JS Require Import Base Bytes Scanner Directive Core Expand Catalog C05Proofs CatalogOrder CatalogIds.
+From JS Require Import Base Bytes Scanner Directive Core Expand Catalog C05Proofs CatalogOrder CatalogIds TagLinks.
 
 (* registering an interaction under tag names: every existing tag keeps its name; it lists
    each id as often as before, plus the new id once per occurrence of the tag's name among
@@ -74,8 +74,22 @@ Theorem C05_built_catalog_http_id_is_protocol_method_path :
     exists k, is_method k = true /\ hi_method h = kind_name k /\ hi_id h = str "http " ++ kind_name k ++ sp ++ hi_path h.
 Proof. exact built_catalog_http_ids. Qed.
 
+(* tags and interactions refer to each other, in EVERY catalog the builder produces (all forests,
+   ban lists, body texts): every tag named by an interaction exists and lists that interaction under
+   the interaction's protocol, and every interaction a tag lists exists, has that protocol and names
+   the tag ("vice versa").  Multiplicity is the subject of C05_exactly_once / the refutation below. *)
+Theorem C05_tags_and_interactions_are_linked_both_ways :
+  forall read_body banned fuel forest c,
+    build_catalog read_body banned fuel forest = COk c ->
+    (forall i, In i (c_inters c) -> forall n, In n (tags_of i) ->
+       exists t, In t (c_tags c) /\ tg_name t = n /\ In (inter_id i) (group (is_http i) t)) /\
+    (forall t, In t (c_tags c) -> forall http id, In id (group http t) ->
+       exists i, In i (c_inters c) /\ inter_id i = id /\ is_http i = http /\ In (tg_name t) (tags_of i)).
+Proof. exact built_catalog_tags_are_linked. Qed.
+
 Print Assumptions C05_built_catalog_ids_are_distinct.
 Print Assumptions C05_built_catalog_http_id_is_protocol_method_path.
+Print Assumptions C05_tags_and_interactions_are_linked_both_ways.
 Print Assumptions C05_registration.
 Print Assumptions C05_exactly_once.
 Print Assumptions C05_interaction_tags_is_registration.
